@@ -61,7 +61,7 @@ Proof. vm_compute. split; reflexivity. Qed.
 (* ------------------------------------------------------------------------------------------------------
    Added in build session 4 (statements re-stated from the proof files by harness tooling; each is closed by
    exact). *)
-From SplipyModel Require Import Proofs.SeamContinuity Proofs.MakePeriodicKnots Proofs.PeriodicInsert Transfer.ParamObj Transfer.ParamOps Transfer.ParamOps2.
+From SplipyModel Require Import Proofs.SeamContinuity Proofs.MakePeriodicKnots Proofs.PeriodicInsert Transfer.ParamObj Transfer.ParamOps Transfer.ParamOps2 Proofs.PeriodicEndToEnd.
 Open Scope R_scope.
 Theorem C08_seam_derivatives :
   forall k : nat -> R,
@@ -288,4 +288,55 @@ Theorem C08_roll_drop :
          firstn (length kk - 1) kk = tl (knew_model k p per1 (kn k (p - 1))).
 Proof. exact @roll_drop. Qed.
 Print Assumptions C08_roll_drop.
+
+Theorem C08_lower_periodic_step_then_evaluate :
+  forall (tol : R) (o : obj R) (d n : nat) (T : R),
+         0 < tol ->
+         wf_obj_R tol o ->
+         (d < length (o_bases o))%nat ->
+         canon_dir o d n T ->
+         let bd := nth d (o_bases o) dflt_basis in
+         exists o2 : obj R,
+           (forall fuel target : nat,
+            (target < b_per1 bd)%nat -> obj_lower_periodic (S fuel) o target d = obj_lower_periodic fuel o2 target d) /\
+           wf_obj_R tol o2 /\
+           length (o_bases o2) = length (o_bases o) /\
+           (forall i : nat, i <> d -> nth i (o_bases o2) dflt_basis = nth i (o_bases o) dflt_basis) /\
+           (let bd2 := nth d (o_bases o2) dflt_basis in
+            b_order bd2 = b_order bd /\
+            b_per1 bd2 = (b_per1 bd - 1)%nat /\
+            b_start bd2 = b_start bd /\ b_end bd2 = b_end bd /\ b_nfun bd2 = (n + 1)%nat) /\
+           ((2 <= b_per1 bd)%nat -> canon_dir o2 d (n + 1) T) /\
+           (forall ts : list R,
+            (forall i : nat,
+             (i < length (o_bases o))%nat -> i <> d -> in_dom tol (nth i (o_bases o) dflt_basis) (nth i ts 0)) ->
+            b_start bd <= nth d ts 0 <= b_end bd -> obj_eval tol o2 ts = obj_eval tol o ts).
+Proof. exact @lower_periodic_step_eval. Qed.
+Print Assumptions C08_lower_periodic_step_then_evaluate.
+
+Theorem C08_lower_periodic_then_evaluate :
+  forall (tol : R) (d : nat),
+         0 < tol ->
+         forall (m : nat) (o : obj R) (n : nat) (T : R) (target fuel : nat),
+         wf_obj_R tol o ->
+         (d < length (o_bases o))%nat ->
+         canon_dir o d n T ->
+         let bd := nth d (o_bases o) dflt_basis in
+         b_per1 bd = (target + m)%nat ->
+         (m <= fuel)%nat ->
+         exists o' : obj R,
+           obj_lower_periodic fuel o target d = Ok o' /\
+           wf_obj_R tol o' /\
+           length (o_bases o') = length (o_bases o) /\
+           (forall i : nat, i <> d -> nth i (o_bases o') dflt_basis = nth i (o_bases o) dflt_basis) /\
+           (let bd' := nth d (o_bases o') dflt_basis in
+            b_order bd' = b_order bd /\
+            b_per1 bd' = target /\ b_start bd' = b_start bd /\ b_end bd' = b_end bd /\ b_nfun bd' = (n + m)%nat) /\
+           ((1 <= target)%nat -> canon_dir o' d (n + m) T) /\
+           (forall ts : list R,
+            (forall i : nat,
+             (i < length (o_bases o))%nat -> i <> d -> in_dom tol (nth i (o_bases o) dflt_basis) (nth i ts 0)) ->
+            b_start bd <= nth d ts 0 <= b_end bd -> obj_eval tol o' ts = obj_eval tol o ts).
+Proof. exact @lower_periodic_eval. Qed.
+Print Assumptions C08_lower_periodic_then_evaluate.
 
